@@ -315,6 +315,9 @@ func (v *Validators) PayRewardsV3(height uint64, period int64) (moreRewards *big
 
 	calcReward, safeReward := v.bus.App().Reward()
 	for _, validator := range vals {
+		if validator.GetTotalBipStake().Sign() == 0 && validator.GetAccumReward().Sign() == 0 {
+			continue // punished in this block: its reward went back to the pool and there is no stake to divide by
+		}
 		candidate := v.bus.Candidates().GetCandidate(validator.PubKey)
 
 		totalReward := big.NewInt(0).Set(validator.GetAccumReward())
@@ -461,6 +464,9 @@ func (v *Validators) PayRewardsV5Fix(height uint64, period int64) (moreRewards *
 	}
 
 	for _, validator := range vals {
+		if validator.GetTotalBipStake().Sign() == 0 && validator.GetAccumReward().Sign() == 0 {
+			continue // punished in this block: its reward went back to the pool and there is no stake to divide by
+		}
 		candidate := v.bus.Candidates().GetCandidate(validator.PubKey)
 
 		totalReward := big.NewInt(0).Set(validator.GetAccumReward())
@@ -657,6 +663,9 @@ func (v *Validators) PayRewardsV5Bug(height uint64, period int64) (moreRewards *
 	}
 
 	for _, validator := range vals {
+		if validator.GetTotalBipStake().Sign() == 0 && validator.GetAccumReward().Sign() == 0 {
+			continue // punished in this block: its reward went back to the pool and there is no stake to divide by
+		}
 		candidate := v.bus.Candidates().GetCandidate(validator.PubKey)
 
 		totalReward := big.NewInt(0).Set(validator.GetAccumReward())
@@ -853,6 +862,9 @@ func (v *Validators) PayRewardsV4(height uint64, period int64) (moreRewards *big
 	}
 
 	for _, validator := range vals {
+		if validator.GetTotalBipStake().Sign() == 0 && validator.GetAccumReward().Sign() == 0 {
+			continue // punished in this block: its reward went back to the pool and there is no stake to divide by
+		}
 		candidate := v.bus.Candidates().GetCandidate(validator.PubKey)
 
 		totalReward := big.NewInt(0).Set(validator.GetAccumReward())
